@@ -682,7 +682,10 @@ def get_hardware_num_denom(
     if isinstance(instr.angle_num, Template) or isinstance(instr.angle_denom, Template):
         # A value that is filled in later (pre-compiled subroutine) cannot be rescaled now:
         # it is accepted as the numerator of a rotation that is already in units of pi / 16.
-        if isinstance(instr.angle_denom, Template) or int(instr.angle_denom.value) != 4:
+        if (
+            isinstance(instr.angle_denom, Template)
+            or encoding.to_int(instr.angle_denom.value) != 4
+        ):
             raise ValueError(
                 f"Instruction {instr} not supported: an angle that is filled in later "
                 f"needs angle_denom 4."
@@ -691,8 +694,8 @@ def get_hardware_num_denom(
 
     # The integer values are what is checked and what is used
     # (an int subclass can carry its value in `__int__`)
-    denom = int(instr.angle_denom.value)
-    num = int(instr.angle_num.value)
+    denom = encoding.to_int(instr.angle_denom.value)
+    num = encoding.to_int(instr.angle_num.value)
     if denom not in [0, 1, 2, 3, 4]:
         raise ValueError(
             f"Instruction {instr} not supported: angle_denom is {instr.angle_denom}."
